@@ -14,7 +14,7 @@ RES = ('a', 'b', 'c', 'zzz')
 SPEC = {
     'level': 'exploration',
     'rule': ('operation sequences over add/reserve/release/merge on 3 resources and up to 4 live '
-             'reservations: every sequence of length <= L over a 49-operation alphabet from 3 base '
+             'reservations: every sequence of length <= L over a 51-operation alphabet (incl. reservations that re-use one request dictionary object) from 3 base '
              'states (enumerated completely; L=3 quick, 4 thorough), then random sequences of length '
              '6-40 with integer and dyadic amounts; a case is one sequence; non-trivial = it contains a '
              'multi-entry request that must fail, or an operation that raised while a reservation was '
@@ -42,6 +42,7 @@ RELEASE_ARGS = [
     [('a', 0)], [('a', 1), ('b', 5)]]
 ALPHABET = ([op for op in ADD_OPS]
             + [('reserve', r) for r in RESERVE_REQS]
+            + [('reserve_shared', [('a', 1)]), ('reserve_shared', [('a', 1), ('b', 1)])]
             + [('release', i, a) for i in (0, 1) for a in RELEASE_ARGS]
             + [('merge', 0, 1), ('merge', 1, 0)])
 
@@ -95,6 +96,7 @@ class PoolRun:
         self.rm.initialize(self.env)
         self.m = Model()
         self.real = []   # real ReservedResources, parallel to m.hold
+        self.shared = {}
         self.raised_after_res = False
         self.failing_multi = False
         self.ok = True
@@ -131,6 +133,17 @@ class PoolRun:
                 self.rm.add_resources(op[1], op[2])
             elif kind == 'reserve':
                 result = self.rm.reserve_resources(as_dict(op[1]))
+            elif kind == 'reserve_shared':
+                # the caller re-uses ONE request dictionary object for several reservations
+                key = repr(op[1])
+                if key not in self.shared:
+                    self.shared[key] = as_dict(op[1])
+                if self.shared[key] != as_dict(op[1]):
+                    self.fail('request_dict_mutated', f'the caller\'s request dictionary {op[1]} was changed to '
+                              f'{self.shared[key]} by earlier pool operations', k)
+                    return 'stop'
+                result = self.rm.reserve_resources(self.shared[key])
+                kind = 'reserve'
             elif kind == 'release':
                 if op[1] >= len(self.real):
                     return 'skip'
@@ -270,7 +283,7 @@ class PoolRun:
         if kind == 'add':
             if m.cap.get(op[1], 0) + op[2] >= 0:
                 return 'resulting capacity is not negative'
-        elif kind == 'reserve':
+        elif kind in ('reserve', 'reserve_shared'):
             if all(a >= 0 for r, a in op[1]):
                 return 'no negative entry: the answer is a reservation or None'
         elif kind == 'release':
@@ -304,7 +317,7 @@ def needs_slots(seq, base):
     """Prune sequences that refer to a reservation that cannot exist."""
     n = 1 if base == 'a2b1_held' else 0
     for op in seq:
-        if op[0] == 'reserve':
+        if op[0] in ('reserve', 'reserve_shared'):
             n += 1      # upper bound (may fail), exact skip happens at run time
         elif op[0] == 'release' and op[1] >= n:
             return False
@@ -334,7 +347,7 @@ def random_sequence(rng):
                 elif y < 0.14:
                     a = -a
                 req.append((r, a))
-            seq.append(('reserve', req))
+            seq.append(('reserve_shared' if rng.random() < 0.25 else 'reserve', req))
             nres += 1
         elif x < 0.85:
             i = rng.randrange(min(nres, 4))
@@ -396,8 +409,8 @@ def replay(sh, v):
     fixed = []
     for o in case['ops']:
         o = list(o)
-        if o[0] == 'reserve':
-            fixed.append(('reserve', [tuple(p) for p in o[1]]))
+        if o[0] in ('reserve', 'reserve_shared'):
+            fixed.append((o[0], [tuple(p) for p in o[1]]))
         elif o[0] == 'release':
             fixed.append(('release', o[1], None if o[2] is None else [tuple(p) for p in o[2]]))
         else:
